@@ -2,3 +2,7 @@ package branch_control
 
 const verifBoundPat = 3
 const verifBoundStr = 2
+const verifBoundFoldPat = 4
+const verifBoundRulePat = 2
+const verifBoundHistPat = 2
+const verifBoundReq = 2
